@@ -180,9 +180,11 @@ Section Reduce.
       pose proof d_nonneg as Hd. pose proof pow_d as Hp.
       replace (d + 1) with (Z.of_nat (S (Z.to_nat d))) by lia.
       rewrite rval_seg; [|lia|lia|lia|lia].
-      rewrite fold1_seg by lia. f_equal. f_equal; [lia|].
-      replace (Z.of_nat (S (Z.to_nat d))) with (d + 1) by lia.
-      rewrite Z.pow_succ_r by lia. lia.
+      rewrite fold1_seg by lia.
+      replace (Z.of_nat (S (Z.to_nat d))) with (Z.succ d) by lia.
+      rewrite Z.pow_succ_r by lia.
+      replace (Z.min ((0 + 1) * (2 * 2 ^ d)) MT - 1) with (MT - 1) by lia.
+      reflexivity.
     Qed.
   End Val.
 
